@@ -2,7 +2,7 @@
 (* case:  <id> SEQ <mode> <slack> <op>;<op>;...
      mode  ::= F (repaired code, cow=true) | P (pinned code, cow=false)
      slack ::= extra capacity the oracle adds to every growing slice (the theorems hold for every oracle)
-     op    ::= P:<prim> | F:<e>,<y>:<prim>/<prim>/... | C:<r>,<y>:<prim>/...      (empty body: "-")
+     op    ::= P:<prim> | F:<e>,<y>:<prim>/<prim>/... | C:<r>,<y>[,<form><wrap>]:<prim>/...      (empty body: "-")
      prim  ::= AL,x,<el>|<el>|...   x=[...]        ML,x,<k>:<el>|...   x={...}       ("-" = empty)
              | CP,x,y  x=y          IS,x,i,<el>  x[i]=el       PL,x,y,<el>  x=y+el     RP,x,y,n  x=y*n
              | SL,x,y,l,r  x=y[l:r] RS,x,y  x=rest(y)          GT,x,y,i  x=y[i]        DL,x,k  del(x[k])
@@ -47,6 +47,11 @@ let parse_op s =
     let hd = String.sub rest 0 i and body = String.sub rest (i + 1) (String.length rest - i - 1) in
     (match String.split_on_char ',' hd with
      | [a; b] -> if k = 'F' then OFor (v a, v b, parse_body body) else OCall (v a, v b, parse_body body)
+     (* C:<r>,<y>,<form><wrap>: how the call is written in the source (func / lambda / named function; the body
+        statements inside further parameterless functions, if, for). The machine has ONE call operation: a name
+        other than a fresh local - the parameter or an outer variable, at any depth - is read and written through
+        to its binding, so every written form is the same OCall. *)
+     | [a; b; _] when k = 'C' -> OCall (v a, v b, parse_body body)
      | _ -> failwith "bad op head")
   | _ -> failwith ("bad op " ^ s)
 
